@@ -67,5 +67,44 @@ UNIT = Unit(
                "  forall|i: int| 0 <= i < f0.len() ==> (#[trigger] struct_def.fields@[i]).0 == f0[i].0\n"
                "    && struct_def.fields@[i].1 == (if i < __ix && cs0[i] is Some { Ty::TStruct { name: cs0[i]->0 } } else { f0[i].1 }),\n"
                "decreases __cf@.len(),")),
+        Fn(file=L, name="transform_expr", rename="lift_call", ret="r", attrs="#[verifier::loop_isolation(false)]", rules=["attrs", ("strip", "tast::"), "opt_or_else"],
+           cut_from="MonoExpr::ECall { func, args, ty } => {", cut_inside=True, cut_before="@block-end", cut_tail="",
+           sig="fn lift_call(state: &mut State, scope: &mut Scope, func: Box<MonoExpr>, args: Vec<MonoExpr>, ty: Ty) -> LiftExpr",
+           pre_rewrites=[INTO_MAP,
+                         # a let-chain whose body ends in `return`: the nested form is the same program
+                         (re.compile(r"if let LiftExpr::EVar \{ name, \.\. \} = &func_expr\s*&& let Some\(entry\) = scope\.get\(name\)\s*&& let Some\(struct_name\) = (entry\s*\.closure_struct\s*\.clone\(\)\s*\.or_else\(\|\| state\.closure_struct_for_ty\(&entry\.ty\)\))\s*&& let Some\(apply_fn\) = state\.apply_fn_for_struct\(&struct_name\)\s*\{(.*?)\n            \}\n", re.S),
+                          r"if let LiftExpr::EVar { name, .. } = &func_expr { if let Some(entry) = scope.get(name) { if let Some(struct_name) = \1 { if let Some(apply_fn) = state.apply_fn_for_struct(&struct_name) {\2\n            } } } }\n", 1)],
+           rewrites=[VC, ("transform_expr(state, scope, *func)", "transform_expr(state, scope, unbox(func))"),
+                     (re.compile(r"let mut call_args = Vec::with_capacity\([^;]*\);"), "let mut call_args: Vec<LiftExpr> = Vec::new();", 1),
+                     ("call_args.extend(args);", "let ghost args_g = args@; vec_extend_lift(&mut call_args, args);"),
+                     ("apply_fn.to_string()", "str_to_string(apply_fn)", "*"),
+                     (re.compile(r"Ty::TFunc \{ ref ret_ty, \.\. \} if state\.ty_contains_closure\(ret_ty\) => \{\s*\*ret_ty\.vclone\(\)\s*\}"),
+                      "Ty::TFunc { ref ret_ty, .. } if state.ty_contains_closure(ret_ty) => { ty_unbox_clone(ret_ty) }", "*"),
+                     (re.compile(r"\n([ \t]*)return LiftExpr::ECall \{(.*?)\n\1\};", re.S),
+                      r"\n\1let __res = LiftExpr::ECall {\2\n\1};\n\1proof { assert(call_args@.subrange(1, call_args@.len() as int) =~= args_g); assert(call_ok(__res, fe_g, la_g, scope, state, ty)); }\n\1return __res;", 1),
+                     (re.compile(r"\n([ \t]*)LiftExpr::ECall \{\s*func: Box::new\(func_expr\),(.*?)\n\1\}\s*\n\}\s*$", re.S),
+                      r"\n\1let __res2 = LiftExpr::ECall {\n\1    func: Box::new(func_expr),\2\n\1};\n\1proof { assert(call_ok(__res2, fe_g, la_g, scope, state, ty)); }\n\1__res2\n}", 1)],
+           obligation="a call whose callee is a variable that holds a closure (recorded in its scope entry, or by its type) with a registered apply "
+                      "function becomes a call of THAT apply function with the closure itself as first argument and the original arguments after "
+                      "it, in order; the call's type is unchanged",
+           contract="ensures exists|fe: LiftExpr, la: Seq<LiftExpr>| #[trigger] call_ok(r, fe, la, final(scope), final(state), ty),",
+           ghost=[("let func_expr = transform_expr(", "line-after", "let ghost fe_g = func_expr;"),
+                  (r"@after-loop:__src", "", "let ghost la_g = args@;")],
+           loop_fn=lambda k, header, kw: ("invariant true,\ndecreases __src@.len()," if "__src.len()" in header else None)),
+        Fn(file=L, name="transform_expr", rename="lift_let", ret="r", rules=["attrs", ("strip", "tast::")],
+           cut_from=re.compile(r"MonoExpr::ELet \{\s*name, value, body, \.\.\s*\} => \{"), cut_inside=True, cut_before="@block-end", cut_tail="",
+           sig="fn lift_let(state: &mut State, scope: &mut Scope, name: String, value: Box<MonoExpr>, body: Box<MonoExpr>) -> LiftExpr",
+           pre_rewrites=[
+               # `match *value { MonoExpr::EClosure {..} => .., other => .. }`: MonoExpr is opaque here; the case split is a stub, the two branches are the code's
+               (re.compile(r"let value = match \*value \{\s*MonoExpr::EClosure \{ params, body, ty \} => \{\s*transform_closure\(state, scope, params, \*body, ty, Some\(name\.clone\(\)\)\)\s*\}\s*other => transform_expr\(state, scope, other\),\s*\};"),
+                "let value = match let_value_of(value) { LetValue::Closure { params, body: cbody, ty } => { transform_closure_named(state, scope, params, unbox(cbody), ty, Some(name.clone())) } LetValue::Other(other) => transform_expr(state, scope, other), };", 1),
+               ("let body = transform_expr(state, scope, *body);", "let body = transform_let_body(state, scope, unbox(body), Ghost(name@), Ghost(value_ty));"),
+           ],
+           rewrites=[VC],
+           obligation="while the BODY of a let is transformed the let-bound variable is in scope, in a layer of its own, with the lifted VALUE's type and the "
+                      "closure environment that type names; afterwards the scope is what it was; the lifted let carries the body's type",
+           contract="""requires old(scope).layers().len() >= 0,
+        ensures final(scope).layers() == old(scope).layers(),
+            r matches LiftExpr::ELet { name: n, value: v, body: b, ty } && n == name && ty == lift_ty(*b),"""),
     ],
 )
